@@ -241,9 +241,10 @@ Definition SlashFree (w : world) : Prop :=
   forall i n s, w_nodes w i = Some n -> n_name n = SHORTN -> cdata_of T n = Some (DString s) -> ~ In 47 s.
 Definition AllNamed (w : world) : Prop :=
   forall i n, w_nodes w i = Some n -> identifiable_n T w n = true -> item_name_n T w n <> None.
-(* elements with character content have no sub-elements (nothing can be inserted into them) *)
+(* elements with character content have no sub-elements (nothing can be inserted into them) and at most one text item *)
+Definition chars_content (l : list citem) : Prop := l = [] \/ exists d, l = [CData d].
 Definition CharsLeaf (w : world) : Prop :=
-  forall i n, w_nodes w i = Some n -> content_mode T (n_type n) = Val MCharacters -> elem_ids (n_content n) = [].
+  forall i n, w_nodes w i = Some n -> content_mode T (n_type n) = Val MCharacters -> chars_content (n_content n).
 
 Record Inv04 (w : world) : Prop := {
   i4_short : ShortTyped w;
